@@ -71,6 +71,12 @@ func c20RunHistory(t *mon.T, target string, hist []string, dir string) {
 
 	path := filepath.Join(dir, "out.car")
 	os.Remove(path)
+	preexisting := false
+	if !isStream && len(hist)%3 == 2 {
+		// the path already holds a larger file (an earlier output): it must be replaced, not overlaid
+		mustWrite(path, bytes.Repeat([]byte{0xEE}, 4096))
+		preexisting = true
+	}
 	stream := &countingStream{}
 	var w *deferred.DeferredCarWriter
 	// the deferred stream constructor forces CARv1 itself; pass the remaining options only
@@ -92,6 +98,9 @@ func c20RunHistory(t *mon.T, target string, hist []string, dir string) {
 		b, err := os.ReadFile(path)
 		if err != nil {
 			return nil, false
+		}
+		if preexisting && len(b) == 4096 && b[0] == 0xEE && b[4095] == 0xEE {
+			return nil, false // still the untouched earlier file: nothing written yet
 		}
 		return b, true
 	}
